@@ -155,6 +155,25 @@ def check(ctx):
         cs_ = f.calls_to("RecursiveStreamCursor::cursor_state")
         ctx.require(len(cs_) == 1 and wr and f.dominates(cs_[0].bb, wr[0][0]) and cs_[0].bb != wr[0][0] or (len(cs_) == 1 and wr and cs_[0].bb in [b for b in range(len(f.blocks)) if wr[0][0] in f.reach_after(b)]),
                     "R-FLOW", "cursor:state-before-refresh:" + nm, "state computed before the cursor is advanced", "cursor advanced before computing the state in %s" % nm)
+    # cursor and slice agree on what a "generation" is: the cursor stores generations_count() — the number of ALL
+    # generations of a matrix, empty ones included — and slice_iter(cursor) must therefore skip over the same unfiltered
+    # sequence.  Dropping empty generations BEFORE the skip makes the skip overshoot whenever an empty generation lies
+    # below the cursor (generation numbers taken from incoming data have gaps), and a value appended while the fold
+    # runs is then never visited.
+    ctx.clause("R-SIBLING cursor/slice agreement: generations_count counts every generation and slice_iter skips over the unfiltered generation sequence (no filter before skip)")
+    gcount = F.fn("values_matrix::ValuesMatrix::generations_count")
+    ge = Prov(gcount).local(0)
+    counts_all = ge[0] == "call" and ge[1].endswith("::len") and lib.mentions_field(ge, "values") and not any(x[0] == "call" and x[1].endswith(("::filter", "::count")) for x in walk(ge))
+    ctx.require(counts_all, "R-SIBLING", "cursor:count-all-generations", "generations_count = values.len() (empty generations included)", "ValuesMatrix::generations_count is `%s`" % show(ge)[:160])
+    sl = F.fn("values_matrix::ValuesMatrix::slice_iter")
+    se = Prov(sl).local(0)
+    skips = [x for x in walk(se) if x[0] == "call" and x[1].endswith("Iterator::skip")]
+    ok = len(skips) == 1 and lib.mentions_field(skips[0][2][0], "values") and lib.mentions_param(skips[0][2][1], "skip") and \
+        not any(x[0] == "call" and x[1].endswith(("Iterator::filter", "Iterator::filter_map", "Iterator::skip_while", "Iterator::take_while", "Iterator::flat_map")) for x in walk(skips[0][2][0]))
+    ctx.require(ok, "R-SIBLING", "cursor:skip-before-filter", "slice_iter(skip) skips over the raw generation sequence, empty generations are dropped afterwards",
+                "ValuesMatrix::slice_iter is `%s`: the generation cursor (which counts empty generations, see generations_count) is applied AFTER empty generations "
+                "were filtered out, so it overshoots when an empty generation lies below it and stream values appended during a fold are never visited" % show(se)[:220],
+                sample={"slice_iter": show(se)[:220]})
     cst = F.fn("recursive_stream::RecursiveStreamCursor::cursor_state")
     e = Prov(cst).local(0)
     ok = any(s[0] == "call" and s[1].endswith("Stream::slice_iter") and len(s[2]) == 2 and s[2][1][0] == "field" and s[2][1][2] == "cursor" for s in walk(e))
